@@ -7,7 +7,8 @@
 (* text yields the sequence of its *logical lines*; a logical line is        *)
 (*     [bl |-> starts with white space, items |-> <<item, ...>>]             *)
 (* and an item is                                                            *)
-(*     [q |-> quoted?, v |-> <<chars>>, p |-> opened inside parentheses?]    *)
+(*     [q |-> quoted?, v |-> <<chars>>, p |-> begins inside parentheses?,     *)
+(*      pb |-> a parenthesis occurs earlier on the logical line?]            *)
 (* For a quoted item v is the content with \X escapes applied; for an        *)
 (* unquoted item v is the raw spelling (what an escape means depends on      *)
 (* whether the item is a domain name or a character string, decided by the   *)
@@ -44,42 +45,51 @@ Ordinary == LetterCh \cup DigitCh \cup PunctCh
 Special  == {";", "(", ")", "\"", "\\"}
 Printable == Ordinary \cup Special \cup {" "}
 
-Item(q, v, p) == [q |-> q, v |-> v, p |-> p]
+Item(q, v, p, pb) == [q |-> q, v |-> v, p |-> p, pb |-> pb]
 
 \* ---------------------------------------------------------------------------
 \* the machine: one character per step
-\*   m     mode: bol gap word wesc quote qesc aq comment cr
+\*   m     mode: bol gap word wesc quote qesc aq (after a closing quote) ap (after ")") comment cr
 \*   par   TRUE inside "(" ... ")"
 \*   bl    the logical line being read started with white space
 \*   ip    the item being read started inside parentheses
 \*   cur   characters of the item being read
 \*   items items of the logical line being read;  lines: finished logical lines
+\*   pn    number of items on the logical line when "(" was read (a group without items is not judged)
+\*   sp    a parenthesis has occurred on the logical line being read
 \*   st    "run" | "err" | "unspec"      why: first reason
-LexInit == [m |-> "bol", par |-> FALSE, bl |-> FALSE, ip |-> FALSE, cur |-> <<>>, items |-> <<>>,
-            lines |-> <<>>, st |-> "run", why |-> "", n |-> 0]
+\*   tags  lexical features seen (reported also when the reading fails)
+LexInit == [m |-> "bol", par |-> FALSE, pn |-> 0, bl |-> FALSE, ip |-> FALSE, sp |-> FALSE, ipb |-> FALSE, cur |-> <<>>, items |-> <<>>,
+            lines |-> <<>>, st |-> "run", why |-> "", n |-> 0, tags |-> {}]
 
-Stop(L, st, why) == [L EXCEPT !.st = st, !.why = why]
+Stop(L, st, why) == [L EXCEPT !.st = st, !.why = why, !.tags = @ \cup {"lex-" \o st \o ": " \o why}]
 
-EndItem(L, q)  == [L EXCEPT !.items = Append(@, Item(q, L.cur, L.ip)), !.cur = <<>>]
+EndItem(L, q)  == [L EXCEPT !.items = Append(@, Item(q, L.cur, L.ip, L.ipb)), !.cur = <<>>]
 EndLine(L) ==
-    IF L.items = <<>> THEN [L EXCEPT !.m = "bol", !.bl = FALSE]
-    ELSE [L EXCEPT !.lines = Append(@, [bl |-> L.bl, items |-> L.items]), !.items = <<>>, !.m = "bol", !.bl = FALSE]
+    IF L.items = <<>> THEN [L EXCEPT !.m = "bol", !.bl = FALSE, !.sp = FALSE]
+    ELSE [L EXCEPT !.lines = Append(@, [bl |-> L.bl, items |-> L.items]), !.items = <<>>, !.m = "bol", !.bl = FALSE, !.sp = FALSE]
 
 \* a line terminator seen between items
 Newline(L) == IF L.par THEN [L EXCEPT !.m = "gap"] ELSE EndLine(L)
 
-\* character c seen between items (modes bol, gap, aq)
+\* character c seen between items (modes bol, gap, aq, ap); glued: directly after a closing quote or ")"
+First(L) == L.items = <<>> /\ ~L.bl            \* the item starting now is the first of an unindented line
 Between(L, c, glued) ==
     CASE c \in Blanks -> [L EXCEPT !.m = "gap"]
       [] c = "\n"     -> Newline(L)
       [] c = "\r"     -> [L EXCEPT !.m = "cr"]
       [] c = ";"      -> [L EXCEPT !.m = "comment"]
-      [] c = "("      -> IF L.par THEN Stop(L, "unspec", "nested parentheses") ELSE [L EXCEPT !.par = TRUE, !.m = "gap"]
-      [] c = ")"      -> IF L.par THEN [L EXCEPT !.par = FALSE, !.m = "gap"] ELSE Stop(L, "err", "unbalanced )")
-      [] glued        -> Stop(L, "unspec", "item glued to a closing quote")
-      [] c = "\""     -> [L EXCEPT !.m = "quote", !.cur = <<>>, !.ip = L.par]
-      [] c = "\\"     -> [L EXCEPT !.m = "wesc", !.cur = <<c>>, !.ip = L.par]
-      [] c \in Ordinary -> [L EXCEPT !.m = "word", !.cur = <<c>>, !.ip = L.par]
+      [] c = "("      -> IF L.par THEN Stop(L, "unspec", "nested parentheses") ELSE [L EXCEPT !.par = TRUE, !.pn = Len(L.items), !.sp = TRUE, !.m = "gap"]
+      [] c = ")"      -> IF ~L.par THEN Stop(L, "err", "unbalanced )")
+                         ELSE IF Len(L.items) = L.pn THEN Stop(L, "unspec", "parentheses around nothing")
+                         ELSE [L EXCEPT !.par = FALSE, !.m = "ap"]
+      [] glued        -> Stop(L, "unspec", "item glued to a closing quote or parenthesis")
+      [] c = "\""     -> [L EXCEPT !.m = "quote", !.cur = <<>>, !.ip = L.par, !.ipb = L.sp,
+                                   !.tags = IF L.par THEN @ \cup {"lex-quote-in-paren"} ELSE @]
+      [] c = "\\"     -> [L EXCEPT !.m = "wesc", !.cur = <<c>>, !.ip = L.par, !.ipb = L.sp, !.tags = @ \cup {"lex-escape-in-word"}]
+      [] c \in Ordinary -> [L EXCEPT !.m = "word", !.cur = <<c>>, !.ip = L.par, !.ipb = L.sp,
+                                     !.tags = IF c = "$" /\ ~First(L) THEN @ \cup {"lex-dollar-word"}
+                                              ELSE IF c = "@" /\ ~First(L) THEN @ \cup {"lex-at-word"} ELSE @]
       [] OTHER        -> Stop(L, "unspec", "character outside printable ASCII")
 
 LexChar(L0, c) ==
@@ -87,13 +97,13 @@ LexChar(L0, c) ==
     IF L.st # "run" THEN L0
     ELSE CASE L.m = "bol"  -> Between([L EXCEPT !.bl = (c \in Blanks)], c, FALSE)
            [] L.m = "gap"  -> Between(L, c, FALSE)
-           [] L.m = "aq"   -> Between(L, c, TRUE)
+           [] L.m \in {"aq", "ap"} -> Between(L, c, TRUE)
            [] L.m = "cr"   -> IF c = "\n" THEN Newline(L) ELSE Stop(L, "unspec", "CR without LF")
            [] L.m = "comment" -> IF c = "\n" THEN Newline(L)
                                  ELSE IF c = "\r" THEN [L EXCEPT !.m = "cr"] ELSE L
            [] L.m = "word" ->
                 CASE c \in Ordinary -> [L EXCEPT !.cur = Append(@, c)]
-                  [] c = "\\"       -> [L EXCEPT !.cur = Append(@, c), !.m = "wesc"]
+                  [] c = "\\"       -> [L EXCEPT !.cur = Append(@, c), !.m = "wesc", !.tags = @ \cup {"lex-escape-in-word"}]
                   [] c \in Blanks \cup {"\n", "\r", ";", ")"} -> Between(EndItem(L, FALSE), c, FALSE)
                   [] c = "("        -> Stop(L, "unspec", "( glued to a word")
                   [] c = "\""       -> Stop(L, "unspec", "quote inside a word")
@@ -117,7 +127,9 @@ LexEof(L) ==
     ELSE CASE L.m \in {"quote", "qesc"} -> Stop(L, "err", "unterminated quoted string")
            [] L.m = "wesc" -> Stop(L, "unspec", "backslash at end of text")
            [] L.m = "cr"   -> Stop(L, "unspec", "CR without LF")
-           [] L.par        -> Stop(L, "err", "unclosed (")
+           [] L.par        -> Stop(L, "err", CASE L.m = "word" -> "unclosed ( at the end of the text, directly after a word"
+                                                   [] L.m = "comment" -> "unclosed ( at the end of the text, inside a comment"
+                                                   [] OTHER -> "unclosed (")
            [] L.m = "word" -> [EndLine(EndItem(L, FALSE)) EXCEPT !.st = "ok"]
            [] OTHER        -> [EndLine(L) EXCEPT !.st = "ok"]
 
